@@ -106,10 +106,16 @@ def once(rc):
         rc.fail(j, j.node, "each factor must be appended to exactly one clique's factor list at one site", construct="assignment site")
     else:
         s = app[0]
+        # the used-marks container: a list of False per factor (by position) or whatever the mutant built in its place
+        used_names = {b["_U"] for pat in ("_U = [False] * len(self.factors)", "_U = {__K: False for _f in self.factors}", "_U = [False for _f in self.factors]", "_U = set()", "_U = []", "_U = {}")
+                      for _, b in tm.find_all(j.node, pat)}
+
+        def _is_used_ref(e):
+            return isinstance(e, ast.Subscript) and dotted(e.value) in used_names
 
         def atomize(e):
             t = norm(e)
-            if t.startswith("is_used[") or t.startswith("used["):
+            if _is_used_ref(e):
                 return A("used")
             if "issubset(" in t and "scope()" in t:
                 return A("fits")
@@ -123,10 +129,11 @@ def once(rc):
         if not (ok1 and ok2):
             rc.fail(j, s.node, "a factor must be assigned to a clique exactly when it is still unused and its scope fits the clique", construct="assignment condition")
         blk = getattr(s.stmt, "_parent", None)
-        marks = [n for n in (blk.body if isinstance(blk, ast.If) else []) if isinstance(n, ast.Assign) and norm(n.targets[0]).startswith(("is_used[", "used[")) and norm(n.value) == "True"]
+        marks = [n for n in (blk.body if isinstance(blk, ast.If) else []) if isinstance(n, ast.Assign) and _is_used_ref(n.targets[0]) and norm(n.value) == "True"]
         if not marks:
             rc.fail(j, s.node, "the factor must be marked used where it is assigned (else it is multiplied into several cliques)", construct="mark used")
-    rs = [s for s in sites(j.node, lambda n: isinstance(n, ast.Raise)) if any("is_used" in norm(t) or "used" in norm(t) for t, p in s.conds)]
+    _un = {b["_U"] for pat in ("_U = [False] * len(self.factors)", "_U = {__K: False for _f in self.factors}", "_U = [False for _f in self.factors]") for _, b in tm.find_all(j.node, pat)}
+    rs = [s for s in sites(j.node, lambda n: isinstance(n, ast.Raise)) if any(any(isinstance(x, ast.Name) and x.id in _un for x in ast.walk(t)) for t, p in s.conds)]
     if not rs:
         rc.fail(j, j.node, "unused factors must be an error (every factor is used)", construct="all used check")
     # (e) potential = unit * product(list)
